@@ -196,6 +196,19 @@ def rule_login_instances(ctx):
             else:
                 okp = all(isinstance(i, Obj) and isinstance(i.attrs.get("db_path"), Sym) and i.attrs["db_path"].tag == "DB_PATH" for i in insts)
                 ok, why = okp and all(i is not shared for i in insts), "a login with a path does not get an instance backed by that path"
+            for fs_, cargs, _ in h.connects[:1]:
+                bad = []
+                for i, nm in enumerate(("databaseName", "schemaName")):
+                    v = cargs[i] if i < len(cargs) else None
+                    o = v.origin if isinstance(v, Sym) else None
+                    gargs = o[3] if o and o[0] == "method" and o[2] == "get" else None
+                    if gargs is None or not (isinstance(gargs[0], Const) and gargs[0].v == nm) or len(gargs) != 1:
+                        bad.append(f"{nm} -> {tagof(v)}")
+                ctx.ob("C17.b", f"{label}: connect gets the request's database and schema as sent (no invented default)", not bad, loc, str(bad))
+                if bad:
+                    ctx.violation("C17.b", "server", "login_request", "login arguments " + bad[0].split(" -> ")[0], loc,
+                                  f"the login handler connects with {bad} instead of exactly the request's databaseName / schemaName: a login "
+                                  f"without a schema gets a different session context than the in-process connect with the same arguments")
             ctx.ob("C17.b", f"two logins, {label}: instance choice", ok, loc, "" if ok else why)
             if not ok:
                 ctx.violation("C17.b", "server", "login_request", f"instance choice for {label}", loc, f"two logins with {label}: {why}")
